@@ -59,17 +59,45 @@ fn last_wins(env: &[(Bytes, Bytes)]) -> Vec<Bytes> {
     v
 }
 
+extern "C" {
+    static mut environ: *mut *mut libc::c_char;
+}
+
+/// The parent's environment as the kernel hands it on: the raw `environ` array,
+/// entry by entry (std::env::vars_os() would skip what it cannot parse).
 fn parent_environ() -> Vec<Bytes> {
-    let mut v: Vec<Bytes> = std::env::vars_os()
-        .map(|(k, v)| {
-            let mut e = k.into_vec();
-            e.push(b'=');
-            e.extend_from_slice(v.as_bytes());
-            e
-        })
-        .collect();
+    let mut v: Vec<Bytes> = vec![];
+    unsafe {
+        let mut p = environ;
+        while !p.is_null() && !(*p).is_null() {
+            v.push(std::ffi::CStr::from_ptr(*p).to_bytes().to_vec());
+            p = p.add(1);
+        }
+    }
     v.sort();
     v
+}
+
+/// Entries that are legitimate in a process environment but awkward for anything
+/// that re-parses it: an empty name, no '=' at all, the same name twice, '=' in a value.
+fn add_odd_parent_entries() {
+    let odd: [&[u8]; 5] = [b"=verif_anon", b"VERIF_NOEQ", b"VERIF_DUP=1=x", b"VERIF_DUP=2", b"VERIF_EQ=a=b=c"];
+    unsafe {
+        let mut all: Vec<*mut libc::c_char> = vec![];
+        let mut p = environ;
+        while !p.is_null() && !(*p).is_null() {
+            let e = std::ffi::CStr::from_ptr(*p).to_bytes();
+            if !odd.iter().any(|o| *o == e) {
+                all.push(*p);
+            }
+            p = p.add(1);
+        }
+        for o in odd {
+            all.push(std::ffi::CString::new(o).unwrap().into_raw());
+        }
+        all.push(std::ptr::null_mut());
+        environ = Box::leak(all.into_boxed_slice()).as_mut_ptr();
+    }
 }
 
 pub fn check_case(ctx: &Ctx, case: &SpawnCase, rep: &mut CaseReport) -> CaseResult {
@@ -325,12 +353,14 @@ pub fn case_strategy() -> impl Strategy<Value = SpawnCase> {
 
 fn worker(ctx: &Ctx) {
     quiet_panics();
+    add_odd_parent_entries();
     let n = ctx.tier.pick(500, 5000);
     ctx.explore("real", "c06", case_strategy(), n, 200, |c, rep| check_case(ctx, c, rep));
 }
 
 fn replay(ctx: &Ctx, _engine: &str, case: &Value) -> CaseResult {
     quiet_panics();
+    add_odd_parent_entries();
     let c: SpawnCase = serde_json::from_value(case.clone()).map_err(|e| Fail::new("bad-replay-file", e.to_string()))?;
     let mut rep = CaseReport::default();
     check_case(ctx, &c, &mut rep)
@@ -339,7 +369,7 @@ fn replay(ctx: &Ctx, _engine: &str, case: &Value) -> CaseResult {
 pub static C06: PropDef = PropDef {
     id: "C06",
     level: "exploration",
-    rule: "proptest generates argument vectors of 0..300 entries over arbitrary non-NUL bytes (empty, blanks, quotes, invalid UTF-8, up to 100 KB each, total below ARG_MAX), an optional `executable` override with an arbitrary argv[0], env = inherit or a list of 0..300 pairs with names from a small alphabet (duplicates in every position) and arbitrary values, cwd, setuid/setgid in {0, 1..65534} (the sandbox runs as root, so identities really change), setpgid; separately one NUL injected into a random argument, argv[0], name or value. Oracle: the helper child's self-report equals the request byte for byte (argv vector, /proc/self/exe, raw environ sorted vs. last-wins model or the parent's environ, cwd by dev/ino, real and effective uid/gid, pgid == pid iff setpgid); with a NUL: Err and zero fork calls. Non-trivial = an argument is empty, non-UTF-8 or > 4096 bytes, or a duplicate name, or an identity option, or an executable override, or a NUL.",
+    rule: "proptest generates argument vectors of 0..300 entries over arbitrary non-NUL bytes (empty, blanks, quotes, invalid UTF-8, up to 100 KB each, total below ARG_MAX), an optional `executable` override with an arbitrary argv[0], env = inherit or a list of 0..300 pairs with names from a small alphabet (duplicates in every position) and arbitrary values, cwd, setuid/setgid in {0, 1..65534} (the sandbox runs as root, so identities really change), setpgid; separately one NUL injected into a random argument, argv[0], name or value. Oracle: the helper child's self-report equals the request byte for byte (argv vector, /proc/self/exe, raw environ sorted vs. last-wins model or the parent's raw environ array (to which the worker adds an entry with an empty name, one without '=', a name that occurs twice and a value containing '='), cwd by dev/ino, real and effective uid/gid, pgid == pid iff setpgid); with a NUL: Err and zero fork calls. Non-trivial = an argument is empty, non-UTF-8 or > 4096 bytes, or a duplicate name, or an identity option, or an executable override, or a NUL.",
     assumptions: &["the helper reports through a side file selected by a sidecar next to its hard link (argv and environment are under test)", "running as root"],
     engines: "real",
     workers: |_| 16,
